@@ -160,6 +160,12 @@ func (w *Wire) chase(v ssa.Value, depth int, seen map[ssa.Value]bool, out map[st
 				out["global:"+Path(a)] = true
 			case *ssa.FieldAddr:
 				fr, _ := AsField(a)
+				if la, isLocal := a.X.(*ssa.Alloc); isLocal && !la.Heap && depth < 24 {
+					// a field of a local struct variable: what was stored into that field of that variable
+					if w.localField(la, a.Field, depth+1, seen, out, map[*ssa.Alloc]bool{}) {
+						return
+					}
+				}
 				if w.FollowField != nil && w.FollowField(fr.Struct, fr.Field) && w.FieldStores != nil {
 					sts := w.FieldStores(fr.Struct, fr.Field)
 					if len(sts) == 0 {
@@ -203,6 +209,44 @@ func (w *Wire) chase(v ssa.Value, depth int, seen map[ssa.Value]bool, out map[st
 	default:
 		out[fmt.Sprintf("op:%T", v)] = true
 	}
+}
+
+// localField chases what was stored into field idx of the local struct variable la: stores to that field, and
+// whole-struct copies from another local.
+func (w *Wire) localField(la *ssa.Alloc, idx int, depth int, seen map[ssa.Value]bool, out map[string]bool, visited map[*ssa.Alloc]bool) bool {
+	if visited[la] || la.Referrers() == nil {
+		return false
+	}
+	visited[la] = true
+	found := false
+	for _, ref := range *la.Referrers() {
+		switch x := ref.(type) {
+		case *ssa.FieldAddr:
+			if x.X != ssa.Value(la) || x.Field != idx || x.Referrers() == nil {
+				continue
+			}
+			for _, r2 := range *x.Referrers() {
+				if st, ok := r2.(*ssa.Store); ok && st.Addr == ssa.Value(x) {
+					found = true
+					w.chase(st.Val, depth, seen, out)
+				}
+			}
+		case *ssa.Store:
+			if x.Addr != ssa.Value(la) {
+				continue
+			}
+			if ld, ok := x.Val.(*ssa.UnOp); ok && ld.Op == token.MUL {
+				if src, ok := ld.X.(*ssa.Alloc); ok && !src.Heap {
+					if w.localField(src, idx, depth, seen, out, visited) {
+						found = true
+						continue
+					}
+				}
+			}
+			return false // the whole struct comes from somewhere else: not decided here
+		}
+	}
+	return found
 }
 
 func (w *Wire) call(c *ssa.Call, idx int, depth int, seen map[ssa.Value]bool, out map[string]bool) {
